@@ -1239,6 +1239,48 @@ func (m *e2Machine) checkCollections() *pt.Violation {
 	return nil
 }
 
+// checkIsolation: every stored datatype, operation, snapshot and client document carries the number of an existing
+// collection, and no two clients' datatypes of different collections share a datatype document.
+func (m *e2Machine) checkIsolation() *pt.Violation {
+	nums := map[int32]string{}
+	for _, d := range m.sys.DB.Docs(schema.CollectionNameCollections) {
+		name, _ := getS(d, "_id")
+		n, _ := getV(d, "num").(int32)
+		nums[n] = name
+	}
+	for _, cn := range []string{schema.CollectionNameDatatypes, schema.CollectionNameClients} {
+		for _, d := range m.sys.DB.Docs(cn) {
+			n, ok := getV(d, "colNum").(int32)
+			if !ok {
+				continue
+			}
+			if _, ok := nums[n]; !ok {
+				id, _ := getS(d, "_id")
+				return viol("C17:document-of-no-collection", "%s document %s carries collection number %d, which no collection has", cn, id, n)
+			}
+		}
+	}
+	// clients of different collections that opened the same key must hold different datatypes
+	type holder struct {
+		coll string
+		idx  int
+	}
+	byDUID := map[string]holder{}
+	for _, c := range m.cls {
+		for _, d := range c.dts {
+			if d.rep.dt.GetState() != model.StateOfDatatype_SUBSCRIBED {
+				continue
+			}
+			id := d.rep.dt.GetDUID()
+			if h, ok := byDUID[id]; ok && h.coll != c.coll {
+				return viol("C17:datatype-shared-across-collections", "client %d (collection %s) and client %d (collection %s) are subscribed to the same datatype %s", h.idx, h.coll, c.idx, c.coll, id)
+			}
+			byDUID[id] = holder{c.coll, c.idx}
+		}
+	}
+	return nil
+}
+
 // foreignRequest sends a request that reaches outside the client's collection.
 func (m *e2Machine) foreignRequest(c *e2client, a pt.Action) *pt.Violation {
 	d := c.dts[a.T]
